@@ -66,6 +66,8 @@ def substituted(before, now=None):
         a = before["attrs"].get(k, MISSING)
         b = now["attrs"].get(k, MISSING)
         if a is not b:
+            if k[1] == "__warningregistry__":
+                continue        # the interpreter's per-module record of warnings already shown
             if a is MISSING and isinstance(b, type(os)) and getattr(b, "__name__", "").startswith(k[0] + "."):
                 continue        # a submodule imported meanwhile becomes a member of its package: not a substitution
             out.append(label(*k))
